@@ -1,8 +1,9 @@
 import N0Verif.Model.XPathApi
 import N0Verif.Proofs.Digits
 /-!
-  C04, string layer: an abstract *safety predicate* `P` on strings that excludes the index
-  text `new()` and is preserved by every way the resolver synthesises tokens
+  C04, string layer: an abstract *safety predicate* `P` on strings that is preserved by every way
+  the resolver synthesises tokens (before fix C04-a it also had to exclude the index text `new()`,
+  the only writing branch; now the always-true predicate is an instance, see `XPathPureFind`)
   (`tokenize`, `fixBr`, `splitChar`, `stripWs`, `splitOnce`, `splitNameIndex`, `parseCond`,
   `bracket`, `natStr/intStr`, `condValStr`, concatenation with the fixed pieces).
 
@@ -22,8 +23,6 @@ class SafePred (P : Str → Prop) : Prop where
   glue : ∀ {a b : Str} {c : Char}, c ∉ sNew → P a → P b → P (a ++ c :: b)
   /-- `replace("][", "]/[")` -/
   fixBr : ∀ {s : Str}, P s → P (fixBr s)
-  /-- the index text `new()` is not safe -/
-  notNew : ¬ P sNew
 
 theorem sNew_eq : sNew = ['n', 'e', 'w', '(', ')'] := by decide
 theorem sTextFn_eq : sTextFn = ['t', 'e', 'x', 't', '(', ')'] := by decide
@@ -473,6 +472,5 @@ instance : SafePred NoW where
     rcases mem_fixBr hm with h | h
     · exact hs h
     · cases h
-  notNew := by unfold NoW; decide
 
 end N0.XPath
